@@ -82,7 +82,7 @@ T_R3 = "CFG dominance / guard-or-forward analysis over MIR in dev and release co
 
 PROPS = {
     "C01": {
-        "clauses": [fam("Add", "Sub"), signed("Add", "Sub"), both(r3.check_underflow_asserts), r3.check_checked_sub, r3.check_add2_carry_used, r3.check_underflow_check_sees_all_digits, r3.check_panic_site_table, r4.check_block_loops, r4.check_block_loop_callers, r5check.check_arithmetic({"Add", "Sub"}, 30), count_ok("biguint/addition.rs", "biguint/subtraction.rs", "bigint/addition.rs", "bigint/subtraction.rs", floor=70), r1.check_biguint_normal_form, r5check.check_division_methods],
+        "clauses": [fam("Add", "Sub"), signed("Add", "Sub"), both(r3.check_underflow_asserts), r3.check_checked_sub, r3.check_add2_carry_used, r3.check_underflow_check_sees_all_digits, r3.check_panic_site_table, r4.check_block_loops, r4.check_block_loop_callers, r5check.check_arithmetic({"Add", "Sub"}, 30), count_ok("biguint/addition.rs", "biguint/subtraction.rs", "bigint/addition.rs", "bigint/subtraction.rs", floor=70), r1.check_biguint_normal_form, r5check.check_division_methods, r1.check_no_constant_cut],
         "not_decided": "the digit arithmetic itself: adc/sbb of the scalar tail, how far a carry or borrow ripples into the longer operand, result growth (a seeded lost "
         "ripple inside `&a - b` is not detected)",
         "level_text": "Decides structural necessary conditions for every input: the two x86_64 block loops are well-formed carry chains (template data flow, addressing, "
@@ -152,7 +152,7 @@ PROPS = {
         "shift leaves and the bit-operator leaves",
     },
     "C04": {
-        "clauses": [r1.check_closed_world, r1.check_biguint_normal_form, r1.check_normalize_body, r7.check_serde_tables, r9.check_eq_ord_hash, r9.check_sign_readers, r5check.check_helpers, r5check.check_constructors, r5check.check_shifts],
+        "clauses": [r1.check_closed_world, r1.check_biguint_normal_form, r1.check_normalize_body, r7.check_serde_tables, r9.check_eq_ord_hash, r9.check_sign_readers, r5check.check_helpers, r5check.check_constructors, r5check.check_shifts, r1.check_no_constant_cut],
         "not_decided": "cmp_slice's most-significant-first iteration order; canonical form of values produced by the 12 reviewed arithmetic writers (argued value-level, "
         "listed in the evidence)",
         "level_text": "Decides: the representation is written only inside the crate's closed set of writer functions (no public field, no foreign writer, feature modules "
@@ -183,7 +183,7 @@ PROPS = {
         "technique": "interprocedural field read-set analysis over MIR (necessity rule)",
     },
     "C10": {
-        "clauses": [_c10_forwarders, _c10_signed, _c10_folds, _no_narrowing, r3.check_panic_site_table, both(r3.check_underflow_asserts), r3.check_add2_carry_used, r5check.check_arithmetic(None, 85), r5check.check_powers, r5check.check_upow, r3.check_operand_overflow, r5check.check_shifts, r5check.check_bitops, r5check.check_division_methods, r5check.check_roots, r5check.check_modular],
+        "clauses": [_c10_forwarders, _c10_signed, _c10_folds, _no_narrowing, r3.check_panic_site_table, both(r3.check_underflow_asserts), r3.check_add2_carry_used, r5check.check_arithmetic(None, 85), r5check.check_powers, r5check.check_upow, r3.check_operand_overflow, r5check.check_shifts, r5check.check_bitops, r5check.check_division_methods, r5check.check_roots, r5check.check_modular, r1.check_no_constant_cut],
         "not_decided": "digit splitting/padding inside the unsigned scalar leaves and the digit arithmetic of the leaf implementations",
         "level_text": "Every one of the ~1286 operator impl bodies is classified from its MIR: ~970 are proven pure forwarders (operands reach the callee in order - swapped "
         "only for commutative operators -, scalar promotions are value-preserving casts, the callee's result is the result, the forwarding graph is acyclic and "
@@ -264,7 +264,7 @@ PROPS = {
         "technique": "type checking of the 10-configuration matrix; canonical MIR fingerprints across 4 fact configurations; cfg-taint (cross-config line diff + forward dataflow); dev-vs-release inventory",
     },
     "C17": {
-        "clauses": [r7.check_serde_tables, r6.check_feature_stability, r1.check_biguint_normal_form],
+        "clauses": [r7.check_serde_tables, r6.check_feature_stability, r1.check_biguint_normal_form, r7.check_serde_hint_confined],
         "not_decided": "the u64 -> (lo, hi) split arithmetic and pair re-join",
         "level_text": "Decides: Sign serialises as the i8 -1/0/1 and deserialises by the inverse table with an Err arm for every other byte (switch targets and promoted "
         "constants read from MIR); BigInt <-> the pair (sign, magnitude) in this order, rebuilt through the canonicalising from_biguint; pre-allocation from "
@@ -303,7 +303,7 @@ PROPS = {
 
 
 portable(
-    r1.check_closed_world, r1.check_biguint_normal_form, r1.check_normalize_body,
+    r1.check_closed_world, r1.check_biguint_normal_form, r1.check_normalize_body, r1.check_no_constant_cut,
     r3.check_checked_div, r3.check_checked_sub, r3.check_add2_carry_used, r3.check_division_sites, r3.check_residue_complement,
     r3.check_parity_dispatch, r3.check_underflow_check_sees_all_digits,
     r4.check_inventory, r4.check_block_loops, r4.check_block_loop_callers, r4.check_div_wide, r4.check_utf8,
